@@ -20,6 +20,8 @@ from interp import Int, NULL, Ref, Str, Fn, Term, Cmp, Not, vkey, node_loc
 JSON_TYPES = {'JSON_OBJECT': 0, 'JSON_ARRAY': 1, 'JSON_STRING': 2, 'JSON_INTEGER': 3, 'JSON_REAL': 4,
               'JSON_TRUE': 5, 'JSON_FALSE': 6, 'JSON_NULL': 7}
 
+LEX_DEGRADES = ('jansson 2.14 lex_save()/strbuffer_append_byte: when the lexer\'s token buffer cannot grow the byte is dropped and '
+                'scanning goes on: the loader then returns a value with characters missing from a string (as success) instead of NULL')
 SPEC = {
     # ---- libc
     'malloc': dict(ret='ptr', alloc='libc'),
@@ -61,10 +63,10 @@ SPEC = {
     'json_true': dict(ret='ptr', null=False),
     'json_false': dict(ret='ptr', null=False),
     'json_deep_copy': dict(ret='ptr', alloc='json', routed=True),
-    'json_loads': dict(ret='ptr', alloc='json', routed=True, input_fail=True),
-    'json_loadb': dict(ret='ptr', alloc='json', routed=True, input_fail=True, out=(3,)),
-    'json_loadf': dict(ret='ptr', alloc='json', routed=True, input_fail=True, out=(2,)),
-    'json_load_file': dict(ret='ptr', alloc='json', routed=True, input_fail=True, out=(2,)),
+    'json_loads': dict(ret='ptr', alloc='json', routed=True, input_fail=True, degrades=LEX_DEGRADES),
+    'json_loadb': dict(ret='ptr', alloc='json', routed=True, input_fail=True, out=(3,), degrades=LEX_DEGRADES),
+    'json_loadf': dict(ret='ptr', alloc='json', routed=True, input_fail=True, out=(2,), degrades=LEX_DEGRADES),
+    'json_load_file': dict(ret='ptr', alloc='json', routed=True, input_fail=True, out=(2,), degrades=LEX_DEGRADES),
     'json_dumps': dict(ret='ptr', alloc='jwt', routed=True,
                        degrades='jansson 2.14 do_dump()/dump_string ignore a failed strbuffer growth: json_dumps then returns text with '
                                 'bytes missing (as success) instead of NULL'),
@@ -591,6 +593,15 @@ def _takes_value(name, pos):
         if pos < len(args) and (args[pos] is NULL or (isinstance(args[pos], Int) and args[pos].v == 0)):
             api_event(st, name, Int(-1), args, node)
             return [(st, Int(-1))]
+        if pos < len(args) and isinstance(args[pos], Ref) and args[pos].loc[0] == 'obj':
+            # the reference is consumed in both outcomes: stored in the container on success, dropped (json_decref) on failure --
+            # a caller that releases the value again after a failure touches released storage
+            s_ok = st.clone()
+            own_sink(it, s_ok, args[pos], node, name)
+            api_event(s_ok, name, Int(0), args, node)
+            own_free(it, st, 'json', args[pos], node, name)
+            api_event(st, name, Int(-1), args, node)
+            return [(s_ok, Int(0)), (st, Int(-1))]
         return g(it, st, args, node)
     return h
 
@@ -638,6 +649,7 @@ def build_model(overrides=None):
     m['json_decrefp'] = h_json_decrefp
     m['json_object_set_new'] = _takes_value('json_object_set_new', 2)
     m['json_array_append_new'] = _takes_value('json_array_append_new', 1)
+    m['json_object_set_new_nocheck'] = _takes_value('json_object_set_new_nocheck', 2)
     m['strcpy'] = h_strcpy
     for name in NULL_CONTAINER:
         if name in m:
